@@ -9,6 +9,8 @@ import DebInspector.Props.C03
 import DebInspector.Props.C04
 import DebInspector.Props.C05
 import DebInspector.Props.C07
+import DebInspector.Props.C10
+import DebInspector.Props.C11
 import DebInspector.Props.C14
 import DebInspector.Props.C15
 import DebInspector.Props.C17
@@ -28,6 +30,8 @@ def dispatch (op : String) (v : Val) : Option Val :=
   | "C04" => Props.C04.check.run v
   | "C05" => Props.C05.check.run v
   | "C07" => Props.C07.check.run v
+  | "C10" => Props.C10.check.run v
+  | "C11" => Props.C11.check.run v
   | "C14" => Props.C14.check.run v
   | "C14e" => Props.C14.checkE.run v
   | "C15" => Props.C15.check.run v
